@@ -306,6 +306,7 @@ PROPS = {
     'src:Exhaustive::matches': ['C10', 'C07'],
     'src:ArgumentParser::take_*': ['C09'],
     'src:parse_field checks': ['C09', 'C03'],
+    'src:bitenum count checks': ['C10'],
 }
 
 N_UNIT = """
@@ -573,12 +574,48 @@ class RegionTr:
             self.env = saved
         return '(fun %s => %s)' % (' '.join(names), body)
 
+    @staticmethod
+    def dotted(e):
+        if e.get('e') == 'path' and len(e['segs']) == 1:
+            return e['segs'][0]
+        if e.get('e') == 'field':
+            d = RegionTr.dotted(e['x'])
+            return None if d is None else d + '.' + e['member']
+        if e.get('e') == 'ref':
+            return RegionTr.dotted(e['x'])
+        return None
+
     def expr(self, e):
         k = e.get('e')
         if k == 'lit' and e['kind'] == 'int':
             return 'N', e['value']
         if k == 'lit' and e['kind'] == 'bool':
             return 'bool', 'true' if e['value'] else 'false'
+        if k == 'field' and self.dotted(e) in self.env and self.env[self.dotted(e)][0] in ('N', 'bool'):
+            return self.env[self.dotted(e)]
+        if k == 'cast':
+            v = self.num(e['x'])
+            w = {'u8': 8, 'u16': 16, 'u32': 32, 'u64': 64, 'usize': 64}.get(e['ty'])
+            if e['ty'] == 'u128':
+                return 'N', v
+            if w:
+                return 'N', '(%s mod 2 ^ %d)' % (v, w)
+            raise Untranslatable('cast to ' + str(e['ty']))
+        if k == 'bin' and e['op'] == '<<':
+            a, b = self.num(e['l']), self.num(e['r'])
+            return 'N', ('(2 ^ %s)' % b) if a == '1' else '(N.shiftl %s %s)' % (a, b)
+        if k == 'mcall' and self.dotted(e['recv']) in self.env and self.env[self.dotted(e['recv'])][0] == 'kind':
+            kd = self.env[self.dotted(e['recv'])][1]
+            if e['method'] == 'is_conditional' and not e['args']:
+                return 'bool', '(is_conditional %s)' % kd
+            if e['method'] == 'matches' and len(e['args']) == 1:
+                return 'bool', '(exh_matches %s %s)' % (kd, self.boolean(e['args'][0]))
+        if k == 'mcall' and e['method'] == 'len' and not e['args'] and self.env.get(self.dotted(e['recv']), ('',))[0] == 'count':
+            return 'N', self.env[self.dotted(e['recv'])][1]
+        if k == 'mcall' and e['method'] == 'any' and len(e['args']) == 1 and e['recv'].get('e') == 'mcall' and \
+                e['recv']['method'] == 'iter' and self.env.get(self.dotted(e['recv']['recv']), ('',))[0] == 'count' and \
+                (self.dotted(e['recv']['recv']) + '.any') in self.env:
+            return self.env[self.dotted(e['recv']['recv']) + '.any']
         if k == 'path' and len(e['segs']) == 1:
             n = e['segs'][0]
             if n in self.env:
@@ -718,6 +755,31 @@ class RegionTr:
             return step(0)
         if kind == 'match' and e['x'].get('e') == 'path' and self.env.get(e['x']['segs'][0], ('',))[0] in ('opt', 'some'):
             return self.match_opt(e, lambda body: self.value_k(body, k))
+        if kind == 'match' and e['x'].get('e') == 'mcall' and e['x']['method'] == 'cmp' and len(e['x']['args']) == 1:
+            a = self.num(e['x']['recv'])
+            b = self.num(e['x']['args'][0]['x'] if e['x']['args'][0].get('e') == 'ref' else e['x']['args'][0])
+            tests = {'Equal': '(%s =? %s)' % (a, b), 'Greater': '(%s <? %s)' % (b, a), 'Less': '(%s <? %s)' % (a, b)}
+
+            def arms(i):
+                if i == len(e['arms']):
+                    raise Untranslatable('match on cmp without a final arm')
+                arm = e['arms'][i]
+                p = arm['pat']
+                if p['p'] == 'wild':
+                    c = 'true'
+                elif p['p'] == 'path' and p['segs'][-1] in tests and p['segs'][-2:-1] == ['Ordering']:
+                    c = tests[p['segs'][-1]]
+                else:
+                    raise Untranslatable('pattern on an Ordering')
+                if arm['guard'] is not None:
+                    c = c if False else '(%s && %s)' % (c, self.boolean(arm['guard'])) if c != 'true' else self.boolean(arm['guard'])
+                saved = dict(self.env)
+                body = self.value_k(arm['body'], k)
+                self.env = saved
+                if c == 'true':
+                    return body
+                return '(if %s then %s else %s)' % (c, body, arms(i + 1))
+            return arms(0)
         try:
             v = self.expr(e)
         except Untranslatable:
@@ -729,7 +791,10 @@ class RegionTr:
     def block_value_k(self, b, k):
         st = b['stmts']
         if not st or st[-1]['s'] != 'expr' or st[-1].get('semi'):
-            raise Untranslatable('block without a value')
+            # no value: fine if every path through the block leaves the function
+            def fell_through():
+                raise Untranslatable('block without a value')
+            return self.stmts(st, fell_through)
         return self.stmts(st[:-1], lambda: self.value_k(st[-1]['e'], k))
 
     def match_opt(self, e, on_body):
@@ -817,6 +882,10 @@ class RegionTr:
         if s['s'] == 'expr':
             e = s['e']
             kind = e.get('e')
+            if kind == 'call' and e['f'].get('segs') == ['Ok'] and not s.get('semi'):
+                return k()
+            if kind == 'call' and e['f'].get('segs') == ['Err'] and not s.get('semi'):
+                return 'false'
             if kind == 'return':
                 x = e['x']
                 if x and x.get('e') == 'call' and x['f'].get('segs') == ['Err']:
@@ -889,6 +958,20 @@ Definition first_diff := Eval vm_compute in region_first_diff src_region.
 Print first_diff.
 Theorem src_agrees : forall W rs sz count stride, src_region W rs sz count stride = region_checks W rs sz count stride.
 Proof. region_auto src_region. Qed.
+Print Assumptions src_agrees.
+"""
+
+
+ENUM_UNIT = """
+Definition first_diff := Eval vm_compute in
+  (find (fun ak => negb (Bool.eqb (src_cfg_check (fst ak) (snd ak)) (enum_cfg_check (fst ak) (snd ak))))
+        (list_prod [true; false] [ExTrue; ExFalse; ExConditional]),
+   enum_first_diff src_count_checks).
+Print first_diff.
+Theorem src_agrees :
+  (forall a k, src_cfg_check a k = enum_cfg_check a k) /\\
+  (forall bits count kind, src_count_checks bits count kind = enum_count_checks bits count kind).
+Proof. split; [intros [] []; reflexivity | enum_auto src_count_checks]. Qed.
 Print Assumptions src_agrees.
 """
 
@@ -1012,6 +1095,23 @@ def generate(xl_by_file):
         return HEADER + 'From BB Require Import ParseRegion.\n' + d + REGION_UNIT, d
     attempt('src:parse_field checks', 'the numeric checks of parse_field (type width against selected bits, bool, stride, array and field '
             'bounds, element count) = the model\'s region_checks, for every base width, range list, type size, count and stride', b_region)
+
+    def b_enum():
+        f = find_fn(be['items'], 'check_explicit_conditional')
+        env = {'config.exhaustive': ('kind', 'kind'), 'input.variants': ('count', 'count'), 'input.variants.any': ('bool', 'any_cfg'),
+               'config.bits.size': ('N', 'bits')}
+        tr = RegionTr(env, {})
+        d = 'Definition src_cfg_check (any_cfg : bool) (kind : exh_kind) : bool :=\n  %s.\n' % tr.stmts(f['body']['stmts'], lambda: 'true')
+        g = find_fn(be['items'], 'check_explicit_exhaustive')
+        st = g['body']['stmts']
+        end = [i for i, x in enumerate(st) if 'max_discr' in json.dumps(x)]
+        if not end or end[0] == 0:
+            raise Untranslatable('head of check_explicit_exhaustive not found')
+        tr = RegionTr(env, {})
+        d += 'Definition src_count_checks (bits count : N) (kind : exh_kind) : bool :=\n  %s.\n' % tr.stmts(st[:end[0]], lambda: 'true')
+        return HEADER + 'From BB Require Import EnumRegion.\n' + d + ENUM_UNIT, d
+    attempt('src:bitenum count checks', 'check_explicit_conditional and the head of check_explicit_exhaustive (variant count against 2^N, '
+            'the exhaustive claim) = the model\'s enum_cfg_check / enum_count_checks, every width, count and kind', b_enum)
 
     attempt('src:ArgumentParser::take_*', 'the three transition functions of the attribute-argument automaton (take_literal, take_punct, '
             'take_ident) = the model\'s (Tokens.v), every state and every token', b_ap)
